@@ -626,6 +626,9 @@ class BusAuthenticator :
             self.state = 'WaitingForBegin'
 
         elif status == 'CONTINUE':
+            if isinstance(challenge, str):
+                # BusExternalAuthenticator hands back an (empty) str
+                challenge = challenge.encode('ascii')
             self.sendAuthMessage(b'DATA ' + binascii.hexlify(challenge))
             self.state = 'WaitingForData'
 
